@@ -83,7 +83,16 @@ static void hashed_stream(Rng& r, bool T) {
   const double p_rt = lg_k <= 9 ? 0.5 : 0.2;
   checkpoint(L, r, "stream", "at construction", 1.0, true);
   std::string first_ops;
+  // rare keys (coupon column >= 31) planted at random positions; they only work with the seed they were mined for
+  std::vector<std::pair<uint64_t, size_t>> plant;
+  if (L.seed == DEFAULT_SEED && !rare_keys().empty() && n > 0 && r.chance(0.3)) {
+    const int np = static_cast<int>(r.range(1, 4));
+    for (int j = 0; j < np; ++j) plant.emplace_back(r.below(n), r.below(rare_keys().size()));
+    count("stream_rare_key_cases");
+  }
+  if (rare_keys().size() < 3) count("rare_keys_failed_verification");
   for (uint64_t i = 0; i < n; ++i) {
+    for (auto& pl : plant) if (pl.first == i) { feed(*L.sk, L.m, rare_val(rare_keys()[pl.second]), L.seed); checkpoint(L, r, "stream", "rare key at i=" + std::to_string(i), 0.7, true); }
     const Val v = gen_val(r, domain, kind);
     const uint64_t c_before = L.m.C;
     feed(*L.sk, L.m, v, L.seed);
@@ -130,6 +139,9 @@ static void synthetic(Rng& r, bool T) {
   const uint64_t prefix = r.chance(0.3) ? r.below(4 * k) : 0;
   describe("synthetic lg_k=" + std::to_string(lg_k) + " target_C=" + std::to_string(target) + " jitter=" + str(jitter) + " p_dup=" + str(p_dup) + " hashed_prefix=" + std::to_string(prefix));
   for (uint64_t i = 0; i < prefix && L.m.C < target; ++i) feed(*L.sk, L.m, gen_val(r, uint64_t(1) << 40, V_U64), L.seed);
+  // a few coupons in columns 31..63 long before a stream of this length would normally show them
+  uint64_t hi_at = UINT64_MAX; int hi_n = 0;
+  if (r.chance(0.3) && target + 6 < cmax_abs) { hi_at = r.below(target); hi_n = static_cast<int>(r.range(1, 4)); count("synthetic_hi_col_cases"); }
   struct Cell { double t; uint32_t rc; };
   std::vector<Cell> cells;
   cells.reserve(64 * k);
@@ -151,6 +163,10 @@ static void synthetic(Rng& r, bool T) {
     L.sk->row_col_update(rc);
     L.m.add_rc(rc);
     ++fed;
+    if (fed == hi_at + 1) {
+      for (int j = 0; j < hi_n; ++j) { const uint32_t h = (static_cast<uint32_t>(r.below(k)) << 6) | static_cast<uint32_t>(r.range(31, 63)); L.sk->row_col_update(h); L.m.add_rc(h); }
+      checkpoint(L, r, "synthetic", "after planting columns >= 31 at fed=" + std::to_string(fed), 1.0, false);
+    }
     if (p_dup > 0 && r.chance(p_dup)) { L.sk->row_col_update(cells[r.below(i + 1)].rc); count("synthetic_duplicates"); }
     bool forced = false;
     if (L.m.C != c_before) {
